@@ -450,6 +450,13 @@ def all_cells(tier):
         cells.append(('prog', 'num %s' % short, 'x = %s\n' % lit))
         if len(lit) < 30 and ('e' not in lit or lit.count('e') and len(lit) < 8):
             cells.append(('prog', 'num [%s, %s]' % (short, short), 'x = [%s, %s] if %s else %s\n' % (lit, lit, lit, lit)))
+    # literals that compare equal but are different constants, next to each other in one module, in both orders (nothing the printer remembers about
+    # one literal may leak into the next)
+    for group in EQUAL_LITERALS:
+        for a in group:
+            for b in group:
+                if a != b:
+                    cells.append(('prog', 'num pair %s then %s' % (a, b), 'x = [%s, %s, %s]\ny = %s\nz = f"{%s}{%s}"\n' % (a, b, a, b, a, b)))
     adj = ADJ if tier == 'thorough' else ADJ_QUICK
     for tpl in ADJ_TEMPLATES:
         two = '{B}' in tpl
@@ -484,6 +491,10 @@ def all_cells(tier):
         cells.append(('prog', 'pat class C(%s)' % p, 'match x:\n  case C(%s): pass\n' % p))
         cells.append(('prog', 'pat mapping {1: %s}' % p, 'match x:\n  case {1: %s}: pass\n' % p))
     return cells
+
+
+EQUAL_LITERALS = [['0', '0.0', '0j', 'False'], ['1', '1.0', 'True', '1e0'], ['2', '2.0', '2e0'], ['10000000000000000', '1e16'], ['255', '0xff', '255.0'],
+                  ["'a'", "b'a'"], ["''", "b''"], ['0.0', '-0.0'], ['0j', '-0j'], ['100', '1e2', '100.0'], ['None', "'None'"], ['1j', '1.0j']]
 
 
 def enumerate_all(model, rep, P):
